@@ -122,7 +122,7 @@ EXTRA = {
 EXTRA2 = {
  'C01': 'Also: `x = x or default` on optional numeric parameters; squeeze without axis= in removeSingleton.',
  'C02': 'Also: a dimension length computed from slice.indices() is checked on 15 sample slices (reversed, strided, empty); np.resize/append/insert/delete/pad/broadcast_to are mask droppers (calibrated).',
- 'C04': 'Also: a sequence argument that is materialised with list() is iterated nowhere else (one-shot iterables); global attributes come from the first file.',
+ 'C04': 'Also: a sequence argument that is materialised with list() is iterated nowhere else (one-shot iterables); global attributes come from the first file; variables copied through the converter into an in-memory file keep their mask (R-PASSMASK).',
  'C05': 'Also: no dimension object of an input is stored in the dimension table of a possibly new file.',
  'C06': 'Also: finite case analysis of the condition that applies a positional mask to a variable (10 cases); a structure-only copy keeps the coordinate keys.',
  'C07': 'Also: every parameter of the converter functions is read (options forwarded); the 0-d branch stores the array, never an extracted scalar.',
@@ -143,7 +143,7 @@ NA = {}
 CLAIMED.update({
  'C03': ('ast checks of applyAlongDimensions: per-variable axis lookup, keepdims/axis agreement of both call forms, measured output lengths, mask-keeping value path, exhaustive store, wrapper delegation',
          'Decides structural necessary conditions only: the axis is the position of the dimension in the current variable; named reducers keep the axis (keepdims=True) and work on the running value; '
-         'new dimension lengths are measured with the same function on the coordinate; no mask-dropping conversion; every variable is stored; the IOAPI wrapper delegates. '
+         'new dimension lengths are measured with the same function on the coordinate; no mask-dropping conversion; every variable is stored; the IOAPI wrapper delegates; the string forms pass untouched variables through a copy that keeps the mask of an in-memory target (R-PASSMASK). '
          'Not decided: equality of values with the numpy reduction for every shape, reducer and mask; commutation. Trusted: numpy reducer/apply_along_axis semantics.', '4/C03'),
  'C14': ('dtype-literal evaluator + size algebra on the file-size arithmetic of the memmap readers; guard/raise pairing; rounding lint',
          'Decides structural necessary conditions only: the divisor of the step count equals the item size of the mapped block type (uamiv, lateral_boundary: polynomial identity in nx, ny, nz, nspec); '
